@@ -382,7 +382,14 @@ def step (st : St) (op impl : String) : St × StepOut :=
         | "call" => .call tag args
         | _ => .callReply
       let d := deserialize (variants st) sm
-      (st, { model := showSeen d, oracle := actorOracle impl d.isSome, nontrivial := d.isNone })
+      -- `Codec.handleMessage`: the actor's state after this message
+      let a := handleMessage {} sm (decodedOf (variants st) sm)
+      let port := if kind == "call" then (if a.droppedPorts == 1 then " port=dropped" else " port=open") else ""
+      -- the caller of a call that is not a message of the actor must observe an absence, never a value
+      let orcPort := if kind == "call" && d.isNone && (impl.splitOn "port=value").length != 1
+        then ["undecodable-call-answered"] else []
+      (st, { model := showSeen (a.handled.head?) ++ port, oracle := actorOracle impl d.isSome ++ orcPort,
+             nontrivial := d.isNone })
     | none => (st, { model := "bad-op" })
   | ["actor", "num", kind, h] =>
     match unhex? h with
